@@ -2166,6 +2166,14 @@ func TestVerifPoolSim(t *testing.T) {
 	cases := env.vCases(simCaseCount(env))
 	for _, idx := range cases {
 		s := simRunCase(env, out, idx)
+		if env.Replay >= 0 {
+			// the code under test iterates Go maps (tie-breaks among equally loaded
+			// channels), so one (seed, case) denotes a small family of histories:
+			// re-execute until the recorded violation shows again
+			for try := 0; try < 2000 && s.viol == nil; try++ {
+				s = simRunCase(env, out, idx)
+			}
+		}
 		out.Evaluations++
 		if s.hostile && s.opCount >= 10 {
 			s.hits["C05.hostile-case"]++
